@@ -239,6 +239,31 @@ def one_case(arg):
                     targets.append(("depth-1-clone", cl))
             for name, cwd in list(targets):
                 targets.append((name + "+git-path-child-fails", cwd))
+            # the same shallow repositories addressed in the other ways
+            addr = []
+            for name, cwd in list(targets)[:3]:
+                if not os.path.isdir(os.path.join(cwd, ".git")):
+                    continue
+                gd = os.path.join(cwd, ".git")
+                os.makedirs(os.path.join(cwd, "sub", "dir"), exist_ok=True)
+                addr += [(name + "/GIT_DIR-absolute", unrelated, {"GIT_DIR": gd}, None),
+                         (name + "/GIT_DIR-relative", unrelated, {"GIT_DIR": os.path.relpath(gd, unrelated)}, None),
+                         (name + "/GIT_DIR+GIT_WORK_TREE", unrelated, {"GIT_DIR": gd, "GIT_WORK_TREE": cwd}, None),
+                         (name + "/subdir", os.path.join(cwd, "sub", "dir"), {}, None),
+                         (name + "/dot-git", gd, {}, None),
+                         (name + "/git --git-dir", unrelated, {"PATH": bindir + ":/usr/bin:/bin"}, [G.REAL_GIT, "--git-dir", gd, "sizer"] + argv),
+                         (name + "/git -C", unrelated, {"PATH": bindir + ":/usr/bin:/bin"}, [G.REAL_GIT, "-C", cwd, "sizer"] + argv),
+                         (name + "/GIT_DIR+tree-root", unrelated, {"GIT_DIR": gd}, [sz] + argv + [m.commits[-1].oid + "^{tree}"])]
+            for name, cwd, env_, cmd_ in addr:
+                r = R.run_proc(cmd_ or [sz] + argv, cwd, R.base_env(env_), timeout=60, tmpdir=d)
+                out["evals"] += 1
+                out["shallow"] += 1
+                if r.rc == 0 or report_shaped(r.out):
+                    out["viol"].append(("C13/shallow-not-refused/" + name, {"rc": r.rc, "out": r.out[:200].decode("utf-8", "replace")}))
+                elif b"goroutine " in r.err and b"panic" in r.err:
+                    out["viol"].append(("C13/shallow-not-refused/panic-instead-of-refusal/" + name, {"rc": r.rc, "stderr": r.err[:300].decode("utf-8", "replace")}))
+                elif not r.err.strip():
+                    out["viol"].append(("C13/shallow-refused-without-message/" + name, {"rc": r.rc}))
             for name, cwd in targets:
                 plan = None
                 if name.endswith("+git-path-child-fails"):
